@@ -15,12 +15,6 @@ theorem plan_send {w hk o k m} (hk' : isSendKind k = some m) (hw : WellWired12 w
     unfold sendPath; split <;> simp [hw.1, hw.2]
   cases k <;> simp [isSendKind] at hk' <;> subst hk' <;> simp [plan, hp]
 
-theorem beginWait_ops (s : AState) (o h k j) :
-    ∃ st, (s.beginWait o h k j).ops = s.ops ++ [{ o, h, kind := k, st }] := by
-  unfold beginWait; split
-  · split <;> exact ⟨_, rfl⟩
-  · exact ⟨_, rfl⟩
-
 theorem stepBegin_detail {w s o h k s'} (hs : stepBegin w s o h k = some s') :
     s.findOp o = none ∧ ∃ st, s'.ops = s.ops ++ [{ o, h, kind := k, st }] ∧ SameOrEnq s.chan s'.chan ∧
       (st = .pending → ∀ m, isSendKind k = some m → WellWired12 w →
@@ -36,7 +30,6 @@ theorem stepBegin_detail {w s o h k s'} (hs : stepBegin w s o h k = some s') :
     by_cases hg : (!kindOk k hk || (s.findOp o).isSome) = true
     · rw [if_pos hg] at hs; simp at hs
     · rw [if_neg hg] at hs
-      try dsimp only at hs
       by_cases hreq : (!s.reqOk w (plan w hk o k).upg) = true
       · rw [if_pos hreq] at hs; simp at hs; subst hs
         exact ⟨_, rfl, hch, by simp⟩
@@ -52,25 +45,20 @@ theorem stepBegin_detail {w s o h k s'} (hs : stepBegin w s o h k = some s') :
           · exact ⟨_, rfl, by simpa using hch, by intro _ m hm; simp [hns] at hm⟩
         | some pl =>
           simp only [hpl] at hs
-          cases hsub : s.submit pl (plan w hk o k).path (.op o) with
-          | none =>
-            simp only [hsub] at hs; simp at hs; subst hs
-            exact ⟨_, rfl, hch, by simp⟩
-          | some s1 =>
-            simp only [hsub] at hs; simp at hs; subst hs
-            obtain ⟨hrx, rfl⟩ := submit_some hsub
-            obtain ⟨st, hst⟩ := beginWait_ops
-              { s with chan := s.chan.enq { pl, tok := if (plan w hk o k).path = .waiting then .op o else .stale } }
-              o h k (plan w hk o k).join
-            refine ⟨st, hst, hch, ?_⟩
+          by_cases hrx : s.chan.rx = true
+          · rw [if_pos hrx] at hs; simp at hs; subst hs
+            obtain ⟨st, hst⟩ := beginWait_ops (s.push pl (plan w hk o k).path (.op o)) o h k (plan w hk o k).join
+            refine ⟨st, by simpa using hst, hch, ?_⟩
             intro _ m hm hw
             obtain ⟨h1, h2⟩ := plan_send (w := w) (hk := hk) (o := o) hm hw
             rw [hpl] at h1
             simp at h1
             refine ⟨{ pl := .msg m none, tok := .op o }, ?_, rfl, rfl⟩
             simp [h1, h2]
+          · rw [if_neg hrx] at hs; simp at hs; subst hs
+            exact ⟨_, rfl, hch, by simp⟩
 
-theorem stepCbBegin_detail {s cb s'} (hs : stepCbBegin s cb = some s') :
+theorem stepCbBegin_detail {w s cb s'} (hs : stepCbBegin w s cb = some s') :
     (∃ m sl tok rest, cb = .handle m ∧ s.chan.queue = { pl := .msg m sl, tok } :: rest ∧
         s'.chan = s.chan.deq) ∨ (s'.chan = s.chan ∧ ∀ m, cb ≠ .handle m) := by
   cases cb with
@@ -93,8 +81,14 @@ theorem stepCbBegin_detail {s cb s'} (hs : stepCbBegin s cb = some s') :
        (first
          | (simp at hs; done)
          | (subst hs; rfl)
+         | (subst hs; simp; done)
          | (obtain ⟨_, rfl⟩ := hs; rfl)
-         | (simp at hs; first | (subst hs; rfl) | (obtain ⟨_, rfl⟩ := hs; rfl))))
+         | (obtain ⟨_, rfl⟩ := hs; simp; done)
+         | (simp at hs; first
+              | (subst hs; rfl)
+              | (subst hs; simp; done)
+              | (obtain ⟨_, rfl⟩ := hs; rfl)
+              | (obtain ⟨_, rfl⟩ := hs; simp; done))))
 
 theorem stepDeq_detail {s s'} (hs : stepDeq s = some s') :
     ∃ e rest, s.chan.queue = e :: rest ∧ (∀ m sl, e.pl ≠ .msg m sl) ∧ s'.chan = s.chan.deq := by
